@@ -42,7 +42,19 @@ HELPER_OBS = {  # verus fn name -> (obligation id, function description, contrac
     'peephole3_helper': ('C05.opt.peephole3.window', vopt.P3_CONTRACT),
     'peephole2_helper__encodable': ('C05.opt.peephole2.encodable', vopt.P2_ENC_CONTRACT),
     'optimization_pass': ('C05.opt.pass.order', vopt.PASS_CONTRACT + vopt.PASS_INV),
+    'optimize': ('C05.opt.imm_index.fits', vopt.OPT_CONTRACT),
 }
+
+
+def check_translator_emits_no_imm():
+    """Precondition of `optimize` (no_int_imm / no_float_imm of its input): translate_bytecode.rs names
+    immediate opcodes only inside gather_constants."""
+    T = 'abra_core/src/translate_bytecode.rs'
+    src = S.read(T)
+    rest = src.replace(S.item(T, r'fn gather_constants\('), '')
+    hits = re.findall(r'Instr::\w*Imm\b', rest)
+    if hits:
+        raise S.SliceError("translate_bytecode.rs emits immediate forms outside gather_constants: %r" % hits[:3])
 
 
 # --------------------------------------------------------------------------- Kani (one build, sequential harnesses)
@@ -126,7 +138,7 @@ def _status(fn, byname, errs, canary_byname):
     return st, detail, f['time_s'], f['rlimit']
 
 
-def canary_transform(text, names):
+def canary_transform(text, names, keep_verified=()):
     """Vacuity canary that keeps callee contracts intact: every function in `names` becomes
     `#[verifier::external_body]` (contract kept, body not checked) and gets a copy
     `<name>__canary` with the same requires/body and `ensures false`.  Every copy must FAIL."""
@@ -149,7 +161,10 @@ def canary_transform(text, names):
         else:
             h2 = h2 + ind + "    ensures false,\n"
         copy = h2 + ind + body
-        text = text[:m.start()] + ind + "#[verifier::external_body]\n" + text[m.start():close + 1] + "\n" + copy + text[close + 1:]
+        # functions in keep_verified stay fully verified (needed when the body uses Verus for-loop ghost
+        # iterators, which do not exist in an external_body)
+        attr = "" if name in keep_verified else ind + "#[verifier::external_body]\n"
+        text = text[:m.start()] + attr + text[m.start():close + 1] + "\n" + copy + text[close + 1:]
     return text
 
 
@@ -177,7 +192,8 @@ def run(tier="quick"):
         opt_text, rew, int_fold_meta, sha = vopt.build()
         contract_fns = list(vopt.METHOD_CONTRACTS) + list(HELPER_OBS) + ['fold_' + op for op in kcrate.INT_FOLDS] + \
             [n for n, kind, oid in rew.get('extra_items', []) if oid]
-        can_text = canary_transform(opt_text, contract_fns)
+        can_text = canary_transform(opt_text, contract_fns, keep_verified=('optimize',))
+        check_translator_emits_no_imm()
         lem_text = build_lemma_file(sc)
         lemc_text = build_lemma_file(sc, canary=True)
         kdir = os.path.join(sc.path, "u9k")
@@ -211,7 +227,7 @@ def run(tier="quick"):
         for fn, (oid, c) in HELPER_OBS.items():
             st, detail, t, rl = _status(fn, by_opt, errs_opt, by_can)
             key = {'peephole1_helper': 'p1', 'peephole2_helper': 'p2', 'peephole3_helper': 'p3',
-                   'peephole2_helper__encodable': 'p2', 'optimization_pass': 'opass'}[fn]
+                   'peephole2_helper__encodable': 'p2', 'optimization_pass': 'opass', 'optimize': 'optimize'}[fn]
             obs.append(E.Obligation(oid, ["C05"], UNIT, fn.split('__')[0], "verus/z3", st, detail, t, OPTF, sha[key], None, c, rlimit=rl))
         for name, kind, oid in rew.get('extra_items', []):
             if oid:
@@ -276,6 +292,7 @@ def run(tier="quick"):
                 "U9: std f64::to_string / str::parse::<f64> is an exact round trip and parse succeeds on every float spelling the lexer produces (float folds go through text)",
                 "U9/verus: #[derive(Clone)] on Instr/Reg/Line is a structural copy (Clone impls with contract r == *self)",
                 "U9/verus: float arithmetic is uninterpreted on the Verus side (fadd/fsub/fmul/fdiv/fpow); bit-precise float obligations are the Kani harnesses",
+                "U9: `optimize`: the same precondition is ASSUMED (explicit `assume`, 1 splice) for the input of every pass of the fixed-point loop; its contract only decides C05.opt.imm_index.fits (no immediate form is introduced when the program has more than 2^16 PushInt / PushFloat lines); that at most 2^16 such lines imply at most 2^16 distinct constants is counting, not verified",
                 "U9: ASSUMED PRECONDITION of peephole2_helper: the window is not `PushNil(0); Pop` (`n - 1` on u16 would underflow). The translator emits PushNil(0) only at function entry and PushNil(1) only before ConstructVariant/ArrayPush/ChannelWrite; no occurrence in any pre-optimization dump of the repository's .abra programs; translator code, not decided",
                 "U9 lemma L2: an Offset operand addresses a slot that exists before the preceding LoadOffset pushed its copy (translator allocates locals with PushNil at function entry); translator code, not decided",
                 "U9 lemmas: semantics of LoadOffset/StoreOffset/StoreOffsetImm/Push*/Pop/Duplicate/Not/JumpIf/JumpIfFalse transcribed from their vm.rs arms (contracts of unit U4)",
@@ -290,7 +307,7 @@ def run(tier="quick"):
             notes=dict(rewrites=rew, verus_opt_wall_s=round(res_opt['wall_s'], 1), verus_lemmas_wall_s=round(res_lem['wall_s'], 1),
                        canary_failed_functions=len(canary_ok), opcodes=len(gen.asm_variants()[1]),
                        kani_covers={h: kres[h]['cover'] for h in kh}, wall_s=round(time.time() - t0, 1),
-                       not_covered="`optimize` (composition of passes to a fixed point) and the translator-side preconditions listed under assumptions"),
+                       not_covered="that `optimize` composes the passes correctly beyond C05.opt.imm_index.fits (each pass is a sequence of the local rewrites proved here), and the translator-side preconditions listed under assumptions"),
         )
         return obs, info
     finally:
@@ -380,6 +397,13 @@ def replay(ob):
         info.update(program_literal=lit, output_literal=(o1 + e1)[:400], program_variable=var, output_variable=(o2 + e2)[:400],
                     class_literal=c1, class_variable=c2)
         return (c1 != c2), info
+    if ob.id == "C05.opt.imm_index.fits":
+        prog, want = many_constants_program()
+        o, e, rc = abra_cli.run_program(prog, timeout=300)
+        info.update(program="generated: two array literals holding the integers 1..80000 (more than 2^16 distinct int constants), "
+                            "then `let x = id(5)`, `println(x + 70000)` (literal operand) and `println(x + id(70000))` (same value through a call)",
+                    expected_output=want, real_output=(o + e)[:300], exit_code=rc)
+        return (o != want), info
     if ob.id == "C05.opt.peephole2.encodable":
         prog, want = big_locals_program()
         o, e, rc = abra_cli.run_program(prog, timeout=300)
